@@ -563,6 +563,10 @@ HTPcreate(filerec_t *file_rec, /* IN: File record to store info in */
     if (HTIregister_tag_ref(file_rec, dd_ptr) == FAIL)
         HGOTO_ERROR(DFE_INTERNAL, FAIL);
 
+    /* keep the highest ref in use current, so Hnewref never hands it out again */
+    if (ref > file_rec->maxref)
+        file_rec->maxref = ref;
+
     /* Get the atom to return */
     if ((ret_value = HAregister_atom(DDGROUP, dd_ptr)) == FAIL)
         HGOTO_ERROR(DFE_INTERNAL, FAIL);
